@@ -550,6 +550,12 @@ func CrossPost(
 		return nil, nil, 0, err
 	}
 
+	// the target board must be readable by the user as well: postpermMsg lets
+	// any user with post permission through on a hidden board.
+	if boardPermStat(user, uid, xBoard, xBid) == ptttype.NBRD_INVALID {
+		return nil, nil, 0, ErrNotPermitted
+	}
+
 	if !hasPostPerm(user, uid, xBoard, xBid) {
 		return nil, nil, 0, ErrPermitNoPost
 	}
